@@ -197,6 +197,8 @@ class Program:
             safely(f'inventory-shapes[{rel}]', [mod], lambda: localnames.restore(mod.tree, rel, nlog0))  # noqa: B023
             self.normalized += nlog0
         mutable = normalize.mutable_attrs([m.tree for m in allm])
+        normalize.set_content_mutable([m.tree for m in allm])
+        normalize._MUTABLE = mutable
         normalize.set_tables([m.tree for m in allm])
         for rel, mod in self.modules.items():
             nlog1: list[str] = []
